@@ -404,7 +404,9 @@ def _wholesale(fi, call):
     return None
 
 
-def _canon_guards(facts, node):
+def _canon_guards(facts, node, fi=None):
+    """the conditions dominating node, polarity-normalised; with fi, hoisted locals are expanded (a guard over a
+    hoisted local is the same guard)"""
     canon = set()
     for t, pol in facts.conds_at(node):
         t = t.strip()
@@ -413,6 +415,11 @@ def _canon_guards(facts, node):
             if t.startswith("(") and t.endswith(")"):
                 t = t[1:-1].strip()
             pol = not pol
+        if fi is not None:
+            try:
+                t = expand_text(fi, ast.parse(t, mode="eval").body)
+            except SyntaxError:
+                pass
         canon.add("%s is %s" % (t, pol))
     return canon
 
@@ -439,8 +446,9 @@ def moved_entry(r, rule, kk, current_keys, p=None):
         if eguards == guards:
             r._table_hits.add((erule, ekey))
             return ent
-        if guards < eguards and p is not None:
-            missing = eguards - guards
+        if p is not None:
+            # the site moved into a helper: its guards, with the helper's parameters replaced by what each caller
+            # passes, together with the guards that stayed in the caller, must cover the tabled guards
             fi = p.functions.get(fkey)
             if fi is None or fi.cls is not None:
                 continue
@@ -455,7 +463,27 @@ def moved_entry(r, rule, kk, current_keys, p=None):
                         n_calls += 1
                         if f is None:
                             f = Facts(g.node)
-                        if not missing <= _canon_guards(f, c):
+                        amap = {}
+                        for pn, a in zip(fi.params, c.args):
+                            try:
+                                amap[pn] = ast.parse(expand_text(g, a), mode="eval").body
+                            except SyntaxError:
+                                pass
+                        eff = set(_canon_guards(f, c, g))
+                        for gd in guards:
+                            txt, _, pol = gd.rpartition(" is ")
+                            try:
+                                tree = ast.parse(txt, mode="eval").body
+                            except SyntaxError:
+                                eff.add(gd)
+                                continue
+
+                            class _S(ast.NodeTransformer):
+                                def visit_Name(self, node):
+                                    return amap.get(node.id, node)
+
+                            eff.add("%s is %s" % (norm(_S().visit(tree)), pol))
+                        if not eguards <= eff:
                             ok = False
             if ok and n_calls:
                 r._table_hits.add((erule, ekey))
@@ -480,20 +508,7 @@ def wholesale_sites(p, reach):
                     continue
                 if facts is None:
                     facts = Facts(fi.node)
-                canon = set()
-                for t, pol in facts.conds_at(n):
-                    t = t.strip()
-                    while t.startswith("not "):
-                        t = t[4:].strip()
-                        if t.startswith("(") and t.endswith(")"):
-                            t = t[1:-1].strip()
-                        pol = not pol
-                    try:
-                        # a guard over a hoisted local is the same guard: compare the expanded condition
-                        t = expand_text(fi, ast.parse(t, mode="eval").body)
-                    except SyntaxError:
-                        pass
-                    canon.add("%s is %s" % (t, pol))
+                canon = _canon_guards(facts, n, fi)
                 guards = sorted(canon)
                 key = "%s:set_tokens(%s) under [%s]" % (fi.key, w, "; ".join(guards))
                 out.append((fi, n, key, guards))
